@@ -103,6 +103,18 @@ def check(run, prog):
         ("np.add(s16, I64): int16 signal plus int64 array", uf("add", 2, 1), [s16, i64], {}, s16),
         ("np.modf(w32)", uf("modf", 1, 2), [w32], {}, w32),
     ]
+    # operands of DIFFERENT signal classes (neither an instance of the other's class, or only one way round): every signal among
+    # the inputs is unwrapped, whichever class dispatches
+    sg = make_signal(prog, "Signal", name="sg", dtype="float64")
+    rs = make_signal(prog, "RadioSignal", nchan=2, name="rs", dtype="float64")
+    plans += [
+        ("np.add(w, sg): an IntensitySignal plus a plain Signal, dispatched on w", uf("add", 2, 1), [zi, sg], {}, zi),
+        ("np.add(sg, w): a plain Signal plus an IntensitySignal, dispatched on sg", uf("add", 2, 1), [sg, zi], {}, sg),
+        ("np.multiply(z, w): a BasebandSignal times an IntensitySignal, dispatched on z", uf("multiply", 2, 1), [z, zi], {}, z),
+        ("np.subtract(w, rs): an IntensitySignal minus a RadioSignal, dispatched on w", uf("subtract", 2, 1), [zi, rs], {}, zi),
+        ("np.divmod(w, sg): two outputs, operands of different classes", uf("divmod", 2, 2), [zi, sg], {}, zi),
+        ("np.add(w, sg, out=(w,)): in-place with an operand of another class", uf("add", 2, 1), [zi, sg], {"out": TupleV([zi])}, zi),
+    ]
     dask_out_rule(ck, prog, "R2")
     scaled_dimensionless_rule(ck, prog, "R2")
     for label, ufunc, inputs, kw, selfv in plans:
@@ -251,6 +263,11 @@ def dask_out_rule(ck, prog, rule):
     for label, ufunc, ins, outs, (cls, dt) in plans:
         z = mk(cls, dt, "zd")
         dask_out_plan(ck, prog, fi, ck.evaluator(), label, ufunc, ins(z), {"out": TupleV(outs(z))}, z, rule)
+    # ... also when only a SAMPLE axis differs (the time axes agree): a (N, 1) target cannot hold a (N, 4) result
+    s1 = make_signal(prog, "Signal", name="s1", dtype="float32", backend="dask", extra=(sp.Integer(1),))
+    b4 = Num(sp.Symbol("B4"), kind="array", shape=(N, 4), tag="data", backend="numpy", dtype=ExtV("numpy.float32"))
+    dask_out_plan(ck, prog, fi, ck.evaluator(), "np.add(s1, B(N, 4), out=(s1,)) on Dask data, s1 of shape (N, 1): the result is larger than the target along a sample axis",
+                  uf("add", 2, 1), [s1, b4], {"out": TupleV([s1])}, s1, rule)
     # a refused multi-output call leaves EVERY target as it was (all targets are checked before any is written)
     z = mk("IntensitySignal", "float64", "zd")
     t1 = mk("IntensitySignal", "float64", "t1")
